@@ -18,15 +18,17 @@ place=$(grep -m1 -o "place in: *[^ ]*" $demo | sed 's/place in: *//; s#/$##')
 pkgdir=$W/$place
 moddir=$W; case "$place" in gcetcbendorsement*) moddir=$W/gcetcbendorsement;; esac
 name=verif_demo_${ID//-/_}_test.go
+tests=$(grep -o "^func Test[A-Za-z0-9_]*" $demo | sed 's/func //' | paste -sd'|')
+RUN="-run ^($tests)\$"
 # demo on the unchanged tree
 cp $demo $pkgdir/$name
-( cd $pkgdir && go test -vet=off -count=1 . >/tmp/mw/$ID.clean.log 2>&1 ); clean_rc=$?
+( cd $pkgdir && go test -vet=off -count=1 $RUN . >/tmp/mw/$ID.clean.log 2>&1 ); clean_rc=$?
 rm $pkgdir/$name
 git -C $W apply $SRC/mut$K.diff || { echo "patch does not apply to HEAD"; exit 2; }
 ( cd $W && go build ./... && cd gcetcbendorsement && go build ./... ) >/tmp/mw/$ID.build.log 2>&1; build_rc=$?
 $V/tools/baseline.sh $W > /tmp/mw/$ID.suite.log 2>&1; suite_rc=$?
 cp $demo $pkgdir/$name
-( cd $pkgdir && go test -vet=off -count=1 . >/tmp/mw/$ID.mut.log 2>&1 ); mut_rc=$?
+( cd $pkgdir && go test -vet=off -count=1 $RUN . >/tmp/mw/$ID.mut.log 2>&1 ); mut_rc=$?
 rm $pkgdir/$name
 echo "$ID: demo-on-clean rc=$clean_rc build rc=$build_rc suite rc=$suite_rc ($(head -1 /tmp/mw/$ID.suite.log)) demo-on-mutant rc=$mut_rc"
 if [ $clean_rc -eq 0 ] && [ $build_rc -eq 0 ] && [ $suite_rc -eq 0 ] && [ $mut_rc -ne 0 ]; then
